@@ -71,23 +71,6 @@ func (s *hStore) Delete(ctx context.Context, key any) error {
 
 func (s *hStore) GetType() string { return "harness" }
 
-type hDB struct {
-	SessionDatabase
-	underlying *cache.Cache[[]byte]
-}
-
-func (d *hDB) getFullKey(prefixes []string, key string) string {
-	k := ""
-	for _, p := range prefixes {
-		k += p + "/"
-	}
-	return k + key
-}
-
-func (d *hDB) GetStore(ttl time.Duration, keys ...string) SessionStore {
-	return SessionStoreImpl[[]byte]{underlying: d.underlying, ttl: ttl, prefixes: keys, db: d}
-}
-
 // H05a: a one-time value redeemed with the real SessionStoreImpl.GetAndDelete by n concurrent
 // requests: at most one redemption succeeds, under every schedule of the store operations.
 func H05a() {
@@ -95,15 +78,17 @@ func H05a() {
 	if vParam("memcached", 0) == 1 {
 		back.deleteMissFails = vBool()
 	}
-	db := &hDB{underlying: cache.New[[]byte](back)}
-	st := db.GetStore(time.Minute, "oauth", "code")
-	vAssert(st.Put("c", "session") == nil, "H05a.put: cannot store the one-time value")
+	// the real in-memory session database over the fake cache back end; like the request handlers,
+	// every request obtains its own store handle with GetStore
+	db := &InMemorySessionDatabase{underlying: cache.New[[]byte](back)}
+	vAssert(db.GetStore(time.Minute, "oauth", "code").Put("c", "session") == nil, "H05a.put: cannot store the one-time value")
 
 	n := vParam("threads", 2)
 	ok := make([]bool, n)
 	for i := 0; i < n; i++ {
 		i := i
 		vGo(func() {
+			st := db.GetStore(time.Minute, "oauth", "code")
 			var target string
 			if err := st.GetAndDelete("c", &target); err == nil {
 				vAssert(target == "session", "H05a.value: redeemed value differs from the stored one")
@@ -126,12 +111,12 @@ func H05a() {
 	vAssert(successes >= 1, "H05a.at_least_once: a stored one-time value could not be redeemed by anyone")
 	// and it is gone afterwards
 	var again string
-	vAssert(st.GetAndDelete("c", &again) != nil, "H05a.sequential_replay: a redeemed one-time value was honoured again")
+	vAssert(db.GetStore(time.Minute, "oauth", "code").GetAndDelete("c", &again) != nil, "H05a.sequential_replay: a redeemed one-time value was honoured again")
 }
 
 func H05a_twin() {
 	back := &hStore{}
-	db := &hDB{underlying: cache.New[[]byte](back)}
+	db := &InMemorySessionDatabase{underlying: cache.New[[]byte](back)}
 	st := db.GetStore(time.Minute, "x")
 	_ = st.Put("c", "v")
 	n := 0
